@@ -159,6 +159,22 @@ def systematic(rng, tier):
     for a in subsets:
         for x in uni:
             out.append(("binop", "contains", ("set", a), x))
+    # `in` against heterogeneous sets: the whole right-hand set must consist of entities (type error otherwise),
+    # whichever element comes first in the set's internal order and whether or not an earlier element matches
+    child = next((e for e in w.entities if e["parents"]), None)
+    lhs = [("lit", ("entity", pu)), ("lit", ("entity", absent))]
+    in_uni = [("lit", ("entity", pu)), ("lit", ("entity", absent)), L(1), S("a"), B(True), ("record", [("a", L(1))]),
+              ("record", []), dec, ("set", [("lit", ("entity", pu))]), ("set", []), operands["err"]]
+    if child is not None:
+        lhs.append(("lit", ("entity", child["uid"])))
+        in_uni.append(("lit", ("entity", child["parents"][0])))
+    in_subsets = [list(c) for n in range(0, 4) for c in itertools.combinations(in_uni, n)]
+    if tier == "quick":
+        in_subsets = [s for s in in_subsets if len(s) <= 2] + rng.sample([s for s in in_subsets if len(s) == 3], 60)
+    for x in lhs:
+        for a in in_subsets:
+            out.append(("binop", "in", x, ("set", a)))
+            out.append(("binop", "in", x, ("set", list(reversed(a)))))
     return [make_case(w, e, [("principal", pu), ("resource", absent)]) for e in out]
 
 
